@@ -986,6 +986,60 @@ func ruleR035(c *Ctx) {
 					c.Violation(key, bad.Pos(), "the keyword/operator token %s is accepted by its type only (%s); its spelling is not tested on a path to a successful return", tokObj.Name(), nodeStr(c.Fset, bad))
 					return true
 				}
+				// the tests have to *establish* the type (and the spelling) on every path to a successful return: a path on
+				// which no branch edge implies tok.typ == <constant> (resp. tok.image == <constant>) accepts any token.
+				// Facts are taken per edge: `a != x || b != y` false gives both equalities, `a != x && b != y` false gives none.
+				establishes := func(field string) func(cond ast.Expr, val bool) bool {
+					return func(cond ast.Expr, val bool) bool {
+						var leaves []Guard
+						expandGuard(cond, val, &leaves)
+						for _, gd := range leaves {
+							be, ok := ast.Unparen(gd.Cond).(*ast.BinaryExpr)
+							if !ok || be.Op != token.EQL || !gd.Val {
+								continue
+							}
+							for _, side := range []ast.Expr{be.X, be.Y} {
+								if sel, ok := ast.Unparen(side).(*ast.SelectorExpr); ok && sel.Sel.Name == field {
+									if id, ok := ast.Unparen(sel.X).(*ast.Ident); ok && info.ObjectOf(id) == tokObj {
+										return false // edge establishes the fact: not admitted on a bad path
+									}
+								}
+							}
+						}
+						return true
+					}
+				}
+				stop := func(x ast.Node) bool { return overwrites(x) }
+				if bad, at := g.PathEdgesFromNode(stmt, isSuccess, stop, establishes("typ")); bad {
+					c.Violation(key, call.Pos(), "there is a path from the consumption of %s to a successful return (%s) on which no test establishes the type of the token (the conditions mention it, but their outcome on this path does not imply typ == <expected>): a wrong token is accepted in this position", tokObj.Name(), c.posStr(at.Pos()))
+					return true
+				}
+				if needsImage {
+					// only where the established type is keyword/operator the spelling matters: look for a path that establishes
+					// no spelling at all although every type test on it concerns a keyword/operator token
+					typKW := func(cond ast.Expr, val bool) bool {
+						var leaves []Guard
+						expandGuard(cond, val, &leaves)
+						for _, gd := range leaves {
+							be, ok := ast.Unparen(gd.Cond).(*ast.BinaryExpr)
+							if !ok || be.Op != token.EQL || !gd.Val {
+								continue
+							}
+							if sel, ok := ast.Unparen(be.X).(*ast.SelectorExpr); ok && sel.Sel.Name == "typ" {
+								if id, ok := ast.Unparen(sel.X).(*ast.Ident); ok && info.ObjectOf(id) == tokObj {
+									if k, ok := ast.Unparen(be.Y).(*ast.Ident); ok && k.Name != "tKeyWord" && k.Name != "tOperate" {
+										return false // the token is established to be of a kind whose spelling does not matter: not a bad path
+									}
+								}
+							}
+						}
+						return establishes("image")(cond, val)
+					}
+					if bad, at := g.PathEdgesFromNode(stmt, isSuccess, stop, typKW); bad {
+						c.Violation(key, call.Pos(), "there is a path from the consumption of the keyword/operator token %s to a successful return (%s) on which no test establishes its spelling (the conditions mention it, but their outcome on this path does not imply image == <expected>): any keyword or operator is accepted in this position", tokObj.Name(), c.posStr(at.Pos()))
+						return true
+					}
+				}
 				c.OK(key, call.Pos(), "the consumed token %s is type checked%s on every path to a successful return", tokObj.Name(), map[bool]string{true: " and its spelling tested", false: ""}[needsImage])
 				return true
 			})
